@@ -48,7 +48,7 @@ def model_spec(draw, max_layers=3, allow_conv=True, max_dim=7, min_layers=1, ext
             if a != 'none':
                 layers.append({'t': 'act', 'name': a})
             if extras and draw(st.sampled_from([False, False, True])):
-                layers.append(draw(st.sampled_from([{'t': 'bn', 'n': c}, {'t': 'affine', 'n': c}])))
+                layers.append(draw(st.sampled_from([{'t': 'bn', 'n': c}, {'t': 'affine', 'n': c, 'dim': 1}])))
             if c * 1 > max_dim:   # cannot happen (cout <= 4 <= max_dim) but keep the invariant explicit
                 raise AssertionError
         if nlin:
@@ -71,7 +71,7 @@ def model_spec(draw, max_layers=3, allow_conv=True, max_dim=7, min_layers=1, ext
             if a != 'none':
                 layers.append({'t': 'act', 'name': a})
             if extras and draw(st.sampled_from([False, False, True])):
-                layers.append(draw(st.sampled_from([{'t': 'ln', 'n': feat}, {'t': 'affine', 'n': feat}])))
+                layers.append(draw(st.sampled_from([{'t': 'ln', 'n': feat}, {'t': 'affine', 'n': feat, 'dim': -1}])))
     spec['layers'] = layers
     return spec
 
